@@ -1237,123 +1237,195 @@ func constPoolRules(p *core.Program, r *core.Report, e *engines) {
 		_, ok = s.Obj().Type().Underlying().(*types.Map)
 		return ok
 	}
-	env := &eng.AffEnv{Info: info, Vars: map[types.Object]eng.Aff{}}
-	env.Sym = func(x ast.Expr) (string, bool) {
-		if isLenOf(info, x, isPool) {
-			return "N", true
-		}
-		return "", false
-	}
-	n := eng.AffSym("N0")
-	appended := 0
 	var param types.Object
 	if ps := fd.Type.Params; ps != nil && len(ps.List) == 1 && len(ps.List[0].Names) == 1 {
 		param = info.Defs[ps.List[0].Names[0]]
 	}
-	okAppend, okFresh, okStore, okHit := false, false, true, false
+	// every path through the primitive, the compiler's own helpers read as part of it (the
+	// miss path may be delegated: `p := c.appendConstant(value)`), is interpreted over the
+	// pool length N0 + (appends so far): a path either returns the index found in the map
+	// before any append (hit), or appends the value exactly once and returns N0, the index of
+	// the element just appended (miss); the map is written only with (value ↦ N0).
+	w := &eng.Walker{Info: info, MaxDepth: 2, MaxPaths: 4000}
+	w.Inline = func(call *ast.CallExpr, depth int) (*ast.BlockStmt, *ast.FuncDecl) {
+		fn := eng.CalleeOf(info, call)
+		if fn == nil || fn.Pkg() != p.Pkg("compiler").Types || fn == e.em.Encode || e.em.Prims[fn] != "" {
+			return nil, nil
+		}
+		if _, hfd := p.DeclOf(fn); hfd != nil && hfd.Body != nil {
+			return hfd.Body, hfd
+		}
+		return nil, nil
+	}
+	paths := w.Func(fd.Body)
+	if w.Overflow {
+		r.Unk(rule, "compiler.(compiler).makeConstant", pos, "too many paths through the constant-pool primitive")
+		return
+	}
+	okAppend, okFresh, okStore, okHit := true, true, true, false
 	detail := ""
-	freshVars := map[types.Object]bool{}
-	// the miss path may be delegated: `return encode(c.add(value, …))` is read as the helper's
-	// statements followed by `return encode(<what the helper returns>)`, the helper's parameter
-	// that receives the value standing for the value
-	isValue := map[types.Object]bool{param: true}
-	stmts := append([]ast.Stmt{}, fd.Body.List...)
-	if len(stmts) > 0 {
-		if rs, ok := stmts[len(stmts)-1].(*ast.ReturnStmt); ok && len(rs.Results) == 1 {
-			if enc, ok := rs.Results[0].(*ast.CallExpr); ok && eng.CalleeOf(info, enc) == e.em.Encode && len(enc.Args) == 1 {
-				if hc, ok := eng.Unparen(enc.Args[0]).(*ast.CallExpr); ok {
-					if hfn := eng.CalleeOf(info, hc); hfn != nil {
-						if _, hfd := p.DeclOf(hfn); hfd != nil && hfd.Body != nil && hfd.Type.Params != nil && len(hfd.Body.List) > 0 {
-							i := 0
-							for _, f := range hfd.Type.Params.List {
-								for _, nm := range f.Names {
-									if i < len(hc.Args) {
-										if id, ok := eng.Unparen(hc.Args[i]).(*ast.Ident); ok && isValue[info.Uses[id]] {
-											isValue[info.Defs[nm]] = true
-										}
-									}
-									i++
+	nMiss := 0
+	for _, path := range flattenPaths(paths, 4000) {
+		if len(path) > 0 && path[len(path)-1].Kind == "panic" {
+			continue
+		}
+		env := &eng.AffEnv{Info: info, Vars: map[types.Object]eng.Aff{}}
+		env.Sym = func(x ast.Expr) (string, bool) {
+			if isLenOf(info, x, isPool) {
+				return "N", true
+			}
+			return "", false
+		}
+		n := eng.AffSym("N0")
+		appended := 0
+		isValue := map[types.Object]bool{param: true}
+		hitVar := map[types.Object]types.Object{} // p -> ok of `p, ok := index[value]`
+		okTaken := map[types.Object]bool{}
+		callVal := map[*ast.CallExpr]eng.Aff{}
+		var frames []*ast.CallExpr
+		isVal := func(x ast.Expr) bool {
+			id, ok := eng.Unparen(x).(*ast.Ident)
+			return ok && isValue[info.Uses[id]]
+		}
+		var eval func(x ast.Expr) (eng.Aff, bool)
+		eval = func(x ast.Expr) (eng.Aff, bool) {
+			x = eng.Unparen(x)
+			if c, ok := x.(*ast.CallExpr); ok {
+				if v, ok := callVal[c]; ok {
+					return v, true
+				}
+				if tv, ok := info.Types[c.Fun]; ok && tv.IsType() && len(c.Args) == 1 {
+					return eval(c.Args[0])
+				}
+			}
+			a, ok := env.Eval(x)
+			if !ok {
+				return a, false
+			}
+			return substAff(a, "N", n), true
+		}
+		panicked, returned := false, false
+		for _, a := range path {
+			switch a.Kind {
+			case "panic":
+				panicked = true
+			case "enter":
+				frames = append(frames, a.Call)
+				if a.Callee != nil && a.Callee.Type.Params != nil {
+					i := 0
+					for _, f := range a.Callee.Type.Params.List {
+						for _, nm := range f.Names {
+							if i < len(a.Call.Args) {
+								if isVal(a.Call.Args[i]) {
+									isValue[info.Defs[nm]] = true
+								} else if v, ok := eval(a.Call.Args[i]); ok {
+									env.Vars[info.Defs[nm]] = v
 								}
 							}
-							if hrs, ok := hfd.Body.List[len(hfd.Body.List)-1].(*ast.ReturnStmt); ok && len(hrs.Results) == 1 {
-								stmts = append(stmts[:len(stmts)-1], hfd.Body.List[:len(hfd.Body.List)-1]...)
-								stmts = append(stmts, &ast.ReturnStmt{Return: hrs.Return, Results: []ast.Expr{&ast.CallExpr{Fun: enc.Fun, Args: []ast.Expr{hrs.Results[0]}}}})
-							}
+							i++
 						}
 					}
 				}
-			}
-		}
-	}
-	for _, st := range stmts {
-		switch s := st.(type) {
-		case *ast.AssignStmt:
-			if len(s.Lhs) != 1 || len(s.Rhs) != 1 {
-				continue
-			}
-			if isPool(s.Lhs[0]) {
-				c, ok := s.Rhs[0].(*ast.CallExpr)
-				if ok {
-					if id, ok := c.Fun.(*ast.Ident); ok && id.Name == "append" && len(c.Args) == 2 && isPool(c.Args[0]) && !c.Ellipsis.IsValid() {
-						if aid, ok := eng.Unparen(c.Args[1]).(*ast.Ident); ok && isValue[info.Uses[aid]] {
+			case "leave":
+				if len(frames) > 0 {
+					frames = frames[:len(frames)-1]
+				}
+			case "cond":
+				c := eng.Unparen(a.Node.(ast.Expr))
+				neg := false
+				if u, ok := c.(*ast.UnaryExpr); ok && u.Op == token.NOT {
+					c, neg = eng.Unparen(u.X), true
+				}
+				if id, ok := c.(*ast.Ident); ok {
+					if a.Taken != neg {
+						okTaken[info.Uses[id]] = true
+					}
+				}
+			case "assign":
+				as := a.Node.(*ast.AssignStmt)
+				if len(as.Lhs) == 2 && len(as.Rhs) == 1 {
+					if ix, ok := eng.Unparen(as.Rhs[0]).(*ast.IndexExpr); ok && isIndexMap(ix.X) {
+						pid, ok1 := as.Lhs[0].(*ast.Ident)
+						oid, ok2 := as.Lhs[1].(*ast.Ident)
+						if ok1 && ok2 && isVal(ix.Index) && appended == 0 {
+							hitVar[objOf(info, pid)] = objOf(info, oid)
+							okHit = true
+						} else {
+							okStore, detail = false, "the index map is looked up with something other than the value, or after the append"
+						}
+					}
+					continue
+				}
+				if len(as.Lhs) != 1 || len(as.Rhs) != 1 {
+					continue
+				}
+				if isPool(as.Lhs[0]) {
+					c, ok := as.Rhs[0].(*ast.CallExpr)
+					if ok {
+						if id, ok := c.Fun.(*ast.Ident); ok && id.Name == "append" && len(c.Args) == 2 && isPool(c.Args[0]) && !c.Ellipsis.IsValid() && isVal(c.Args[1]) {
 							appended++
 							n = n.Add(eng.AffConst(1), 1)
-							okAppend = true
 							continue
 						}
 					}
+					okAppend, detail = false, "the pool is assigned from something other than append(pool, value)"
+					continue
 				}
-				okAppend, detail = false, "the pool is assigned from something other than append(pool, value)"
-				continue
-			}
-			if id, ok := s.Lhs[0].(*ast.Ident); ok {
-				if a, ok := env.Eval(s.Rhs[0]); ok {
-					a = substAff(a, "N", n)
-					env.Vars[objOf(info, id)] = a
-					if appended == 1 && a.Equal(eng.AffSym("N0")) {
-						freshVars[objOf(info, id)] = true
+				if ix, ok := as.Lhs[0].(*ast.IndexExpr); ok && isIndexMap(ix.X) {
+					v, okv := eval(as.Rhs[0])
+					if !(isVal(ix.Index) && okv && appended == 1 && v.Equal(eng.AffSym("N0"))) {
+						okStore, detail = false, "the index map is written with something other than (value ↦ index of the element just appended)"
+					}
+					continue
+				}
+				if id, ok := as.Lhs[0].(*ast.Ident); ok {
+					if v, ok := eval(as.Rhs[0]); ok {
+						env.Vars[objOf(info, id)] = v
+					} else {
+						delete(env.Vars, objOf(info, id))
 					}
 				}
-			}
-		case *ast.IfStmt:
-			// hit path: if hashable { if p, ok := index[i]; ok { return encode(p) } }
-			// store path: if hashable { index[i] = p }
-			ast.Inspect(s, func(nd ast.Node) bool {
-				switch x := nd.(type) {
-				case *ast.AssignStmt:
-					if len(x.Lhs) == 1 && len(x.Rhs) == 1 {
-						if ix, ok := x.Lhs[0].(*ast.IndexExpr); ok && isIndexMap(ix.X) {
-							kid, ok1 := eng.Unparen(ix.Index).(*ast.Ident)
-							vid, ok2 := eng.Unparen(x.Rhs[0]).(*ast.Ident)
-							if !(ok1 && ok2 && isValue[info.Uses[kid]] && freshVars[info.Uses[vid]]) {
-								okStore, detail = false, "the index map is written with something other than (value ↦ index of the element just appended)"
-							}
+			case "return":
+				rs, _ := a.Node.(*ast.ReturnStmt)
+				if rs == nil || len(rs.Results) != 1 {
+					continue
+				}
+				if a.Depth > 0 {
+					if len(frames) > 0 {
+						if v, ok := eval(rs.Results[0]); ok {
+							callVal[frames[len(frames)-1]] = v
 						}
 					}
-					if len(x.Lhs) == 2 && len(x.Rhs) == 1 {
-						if ix, ok := eng.Unparen(x.Rhs[0]).(*ast.IndexExpr); ok && isIndexMap(ix.X) {
-							if kid, ok := eng.Unparen(ix.Index).(*ast.Ident); ok && isValue[info.Uses[kid]] && appended == 0 {
-								okHit = true
-							}
-						}
+					continue
+				}
+				returned = true
+				c, ok := eng.Unparen(rs.Results[0]).(*ast.CallExpr)
+				if !ok || eng.CalleeOf(info, c) != e.em.Encode || len(c.Args) != 1 {
+					okFresh = false
+					continue
+				}
+				if id, ok := eng.Unparen(c.Args[0]).(*ast.Ident); ok {
+					if okv, isHit := hitVar[info.Uses[id]]; isHit && okTaken[okv] && appended == 0 {
+						continue // hit: the stored index
 					}
 				}
-				return true
-			})
-		case *ast.ReturnStmt:
-			if len(s.Results) == 1 {
-				if c, ok := s.Results[0].(*ast.CallExpr); ok && eng.CalleeOf(info, c) == e.em.Encode && len(c.Args) == 1 {
-					if id, ok := eng.Unparen(c.Args[0]).(*ast.Ident); ok && freshVars[info.Uses[id]] {
-						okFresh = true
-					} else if a, ok := env.Eval(c.Args[0]); ok && appended == 1 && substAff(a, "N", n).Equal(eng.AffSym("N0")) {
-						okFresh = true
+				nMiss++
+				if appended != 1 {
+					okAppend = false
+					if detail == "" {
+						detail = fmt.Sprintf("a completing path appends %d times", appended)
 					}
+				}
+				if v, ok := eval(c.Args[0]); !ok || appended != 1 || !v.Equal(eng.AffSym("N0")) {
+					okFresh = false
 				}
 			}
 		}
+		_ = panicked
+		_ = returned
 	}
-	r.Check(okAppend && appended == 1, rule, "compiler.(compiler).makeConstant/appends the value once", pos, "one append of the argument to the pool", "makeConstant does not append its argument exactly once on the miss path ("+detail+")")
-	r.Check(okFresh, rule, "compiler.(compiler).makeConstant/returns the index of the appended element", pos, "the miss path returns encode(len(pool)−1) taken after the append", "the miss path does not return the index of the element just appended: the operand designates another constant")
+	r.Check(okAppend && nMiss > 0, rule, "compiler.(compiler).makeConstant/appends the value once", pos, "one append of the argument to the pool on every miss path", "makeConstant does not append its argument exactly once on the miss path ("+detail+")")
+	r.Check(okFresh && nMiss > 0, rule, "compiler.(compiler).makeConstant/returns the index of the appended element", pos, "every miss path returns encode(len(pool)−1) taken after the append", "the miss path does not return the index of the element just appended: the operand designates another constant")
 	r.Check(okStore && okHit, rule, "compiler.(compiler).makeConstant/index map", pos, "the de-duplication map is looked up by the value before the append and written only with the fresh index", "index map discipline broken: "+detail)
 }
 
